@@ -7,6 +7,7 @@ package main
 import (
 	"encoding/json"
 	"fmt"
+	"math"
 	"os"
 	"path/filepath"
 	"regexp"
@@ -21,6 +22,8 @@ import (
 
 type witness struct {
 	Set       int          `json:"sample_set"`
+	SetT0     int64        `json:"sample_set_t0_ms"`
+	SetEnd    int64        `json:"sample_set_end_ms"`
 	Ingest    string       `json:"ingest_mode"`
 	Mode      string       `json:"mode"` // instant | range | range-vs-instant
 	Expr      string       `json:"expr"`
@@ -242,6 +245,7 @@ func (r *setRun) load() bool {
 			err = r.writeWindow(from, to)
 			if err == nil && r.ingest == "time-chunked/flush-mid" && k == 2 {
 				err = s.Flush()
+				r.set.Seam = to
 			}
 		}
 		if err == nil && r.ingest == "time-chunked/flush-all" {
@@ -387,6 +391,14 @@ func (r *setRun) evalExpr(n *Node, p EvalParams) {
 	n.Constructs(tags)
 	for t := range tags {
 		c.Count("expressions-by-construct/"+t, 1)
+	}
+	for _, m := range []string{"instant", "range"} {
+		if windowCovers(n, m, p, r.set.Seam) {
+			c.Count("evaluations-with-window-across-file-memtable-seam", 1)
+		}
+		if r.nanInfInWindow(n, m, p) {
+			c.Count("evaluations-with-nan-or-inf-sample-in-window", 1)
+		}
 	}
 	if twoShards(n, "instant", p) {
 		c.Count("evaluations-with-window-across-shard-group-boundary", 1)
@@ -576,10 +588,25 @@ func (r *setRun) report(full, n *Node, mode string, p EvalParams, d *Diff, want,
 	if kind == "error" || kind == "instant-error-at-step" {
 		kind += ":" + errorClass(d.Detail)
 	}
-	sig := kind + "|" + mode + "|" + min.Head() + "|" + min.Shape()
+	hn := min
+	if d.Detail == noAnswer && len(min.Matchers) > 0 {
+		// not minimised (see above): the matchers were not shown to be necessary
+		k := *min
+		k.Matchers = nil
+		hn = &k
+	}
+	sig := kind + "|" + mode + "|" + hn.Head() + "|" + hn.Shape()
 	if mode != "instant" && rangeBelowStep(min, p) {
 		// data shape: windows of a range function do not tile the range query (range < step)
 		sig = "range<step|" + sig
+	}
+	if r.nanInfInWindow(min, mode, p) {
+		// data shape: a NaN or +/-Inf sample lies in a window the expression reads
+		sig = "nan-inf-in-window|" + sig
+	}
+	if windowCovers(min, mode, p, r.set.Seam) {
+		// data shape: a window covers the flush point (older samples in a file, newer in the memtable)
+		sig = "file-memtable-seam|" + sig
 	}
 	if twoShards(min, mode, p) {
 		// data shape: some selector's window reaches across a shard-group boundary
@@ -593,7 +620,7 @@ func (r *setRun) report(full, n *Node, mode string, p EvalParams, d *Diff, want,
 			series = append(series, s)
 		}
 	}
-	w := witness{Set: r.set.Index, Ingest: r.ingest, Mode: mode, Expr: min.String(), Node: min, Params: p, Diff: d.Kind + ": " + d.Detail,
+	w := witness{Set: r.set.Index, SetT0: r.set.T0, SetEnd: r.set.End, Ingest: r.ingest, Mode: mode, Expr: min.String(), Node: min, Params: p, Diff: d.Kind + ": " + d.Detail,
 		Expected: want.render(30), Got: got.render(30), Series: toWire(series), Signature: sig}
 	if full != min {
 		w.FullExpr = full.String()
@@ -613,6 +640,15 @@ func (r *setRun) report(full, n *Node, mode string, p EvalParams, d *Diff, want,
 // twoShards reports whether a data window of the expression (range or look-back, shifted
 // by the offset) contains the shard-group boundary for some evaluation step.
 func twoShards(n *Node, mode string, p EvalParams) bool {
+	return windowCovers(n, mode, p, shardBoundary)
+}
+
+// windowCovers: some selector's window (range or look-back, shifted by the offset)
+// contains the instant at for some evaluation step.
+func windowCovers(n *Node, mode string, p EvalParams, at int64) bool {
+	if at == 0 {
+		return false
+	}
 	var ws [][2]int64
 	n.windows(&ws)
 	from, to := p.Instant, p.Instant
@@ -620,11 +656,39 @@ func twoShards(n *Node, mode string, p EvalParams) bool {
 		from, to = p.Start, p.End
 	}
 	for _, w := range ws {
-		if from-w[0] < shardBoundary && shardBoundary <= to-w[1] {
+		if from-w[0] < at && at <= to-w[1] {
 			return true
 		}
 	}
 	return false
+}
+
+// nanInfInWindow: a series of a metric the expression selects has a NaN (not a staleness
+// marker) or infinite sample inside a window of some evaluation step.
+func (r *setRun) nanInfInWindow(n *Node, mode string, p EvalParams) bool {
+	if n == nil {
+		return false
+	}
+	if n.Kind == "sel" || n.Kind == "rfn" {
+		w := lookbackMs
+		if n.Kind == "rfn" {
+			w = n.Range
+		}
+		from, to := p.Instant, p.Instant
+		if mode != "instant" {
+			from, to = p.Start, p.End
+		}
+		lo, hi := from-n.Offset-w, to-n.Offset
+		for _, s := range r.set.byMetric[n.Metric] {
+			for i, t := range s.T {
+				if t >= lo && t <= hi && !isStale(s.V[i]) && (math.IsNaN(s.V[i]) || math.IsInf(s.V[i], 0)) {
+					return true
+				}
+			}
+		}
+		return false
+	}
+	return r.nanInfInWindow(n.Child, mode, p) || r.nanInfInWindow(n.L, mode, p) || r.nanInfInWindow(n.R, mode, p)
 }
 
 func rangeBelowStep(n *Node, p EvalParams) bool {
